@@ -266,3 +266,8 @@ MUTANTS += [
             }
             mp->length -= size;""", 'expect': 'R5.part-remaining multipart_extract'},
 ]
+
+
+# SESSION7b additions to the claim (round 8, DESIGN 12.6)
+CLAIM['technique'] += '; no-forward-seek on the download path; case-insensitive matching of header names'
+CLAIM['text'] += ' C05-l: the download path stores every received byte. C05-m: no case-sensitive comparison of the response header with a literal.'
